@@ -30,10 +30,10 @@ import (
 
 // vmCfg is one `mw new` line: how the app is assembled.
 type vmCfg struct {
-	inst                   bool // ScopeMiddleware installed
-	n                      int  // configured middlewares
-	eh, ceh, ph, seh, reh  bool // custom (true) or default handlers
-	rec                    bool // WithPanicRecovery
+	inst                  bool // ScopeMiddleware installed
+	n                     int  // configured middlewares
+	eh, ceh, ph, seh, reh bool // custom (true) or default handlers
+	rec                   bool // WithPanicRecovery
 }
 
 func b01(b bool) string {
@@ -70,16 +70,17 @@ type vmReq struct {
 	vmSpec
 	id int
 	// observations
-	mu       sync.Mutex
-	events   []string
-	created  []godi.Scope
-	attempts int
-	status   int
-	escaped  bool // a panic left the whole stack
-	outer    godi.Scope
-	bar      *vmBarrier
-	arrived  sync.Once
-	sc       *vmScenario
+	mu          sync.Mutex
+	events      []string
+	created     []godi.Scope
+	attempts    int
+	status      int
+	escaped     bool // a panic left the whole stack
+	outer       godi.Scope
+	closesAtEnd map[godi.Scope]int32 // Close count of each created scope's disposable when the request had ended
+	bar         *vmBarrier
+	arrived     sync.Once
+	sc          *vmScenario
 }
 
 func (r vmSpec) line() string {
@@ -288,15 +289,15 @@ type vmApp interface {
 }
 
 type vmScenario struct {
-	cfg      vmCfg
-	prov     godi.Provider
-	wrap     *vmProvider
-	app      vmApp
-	mu       sync.Mutex
-	scopes   []godi.Scope          // every scope handed out, kept alive so identities stay unique
-	owner    map[godi.Scope]*vmReq // who got it from CreateScope
-	res      map[godi.Scope]*vmRes
-	closed   bool
+	cfg    vmCfg
+	prov   godi.Provider
+	wrap   *vmProvider
+	app    vmApp
+	mu     sync.Mutex
+	scopes []godi.Scope          // every scope handed out, kept alive so identities stay unique
+	owner  map[godi.Scope]*vmReq // who got it from CreateScope
+	res    map[godi.Scope]*vmRes
+	closed bool
 }
 
 func (sc *vmScenario) addScope(s godi.Scope, r *vmReq) {
@@ -568,26 +569,33 @@ func (v *vmRun) runBatch(batch []*vmReq) {
 		}(r)
 	}
 	wg.Wait()
-	for _, r := range batch {
-		if r.outer != nil {
-			_ = r.outer.Close()
-		}
-	}
 	// the request has ended: everything C16 promises must hold NOW. The framework calls are
 	// synchronous, so no wait is needed on correct code; the bounded wait only keeps a report about
-	// a leak from being a report about scheduling.
+	// a leak from being a report about scheduling. The Close counts are taken before the harness
+	// closes its own outer scopes (whose cancellation would also tear down a leaked request scope).
 	for _, r := range batch {
+		r.closesAtEnd = map[godi.Scope]int32{}
 		for _, s := range r.created {
 			deadline := time.Now().Add(v.waitBudget(2 * time.Second))
 			for {
 				sc.mu.Lock()
 				x := sc.res[s]
 				sc.mu.Unlock()
-				if x == nil || atomic.LoadInt32(&x.closes) > 0 || time.Now().After(deadline) {
+				if x == nil {
+					r.closesAtEnd[s] = -1
+					break
+				}
+				r.closesAtEnd[s] = atomic.LoadInt32(&x.closes)
+				if r.closesAtEnd[s] > 0 || time.Now().After(deadline) {
 					break
 				}
 				time.Sleep(2 * time.Millisecond)
 			}
+		}
+	}
+	for _, r := range batch {
+		if r.outer != nil {
+			_ = r.outer.Close()
 		}
 	}
 	sc.mu.Lock()
@@ -650,7 +658,7 @@ func (v *vmRun) pathOf(r *vmReq) string {
 
 // monitors: the statement of C16 evaluated directly on what the real stack did (no Lean model involved).
 func (v *vmRun) monitors(r *vmReq, evs []string, fresh bool, batch []*vmReq) {
-	sc, cfg := v.sc, v.sc.cfg
+	cfg := v.sc.cfg
 	bad := func(format string, a ...any) {
 		v.failMon(fmt.Sprintf("%s %s: ", vmName, r.line()) + fmt.Sprintf(format, a...) + " events=[" + strings.Join(evs, " ") + "]")
 	}
@@ -754,14 +762,11 @@ func (v *vmRun) monitors(r *vmReq, evs []string, fresh bool, batch []*vmReq) {
 	}
 	// 3. closed exactly once by the end of the request, never before the last use
 	for _, s := range r.created {
-		sc.mu.Lock()
-		x := sc.res[s]
-		sc.mu.Unlock()
-		switch {
-		case x == nil:
+		switch n := r.closesAtEnd[s]; {
+		case n < 0:
 			bad("the request's scope has no disposable (harness invariant)")
-		case atomic.LoadInt32(&x.closes) != 1:
-			bad("scoped disposable closed %d times by the end of the request, want exactly 1", atomic.LoadInt32(&x.closes))
+		case n != 1:
+			bad("scoped disposable closed %d times by the end of the request, want exactly 1", n)
 		}
 	}
 	if closeAt >= 0 && lastUse > closeAt {
